@@ -1118,13 +1118,26 @@ pub fn gen_c19(asm: &Asm, rng: &mut Rng, sh: &mut Shards, path: &str, thorough: 
         let pre = Preprocessor::new();
         let mut ctx = PreprocessorContext::default();
         let mut out = PreprocessorOutput::default();
-        let sources: [&str; 6] = [
-            "x: db 5\ny: dw [3 , 4]\nstart:\nmov ax, word y\njmp l\nl: hlt\n",
-            "macro m(a) -> inc a <-\ndef f {\ninc bx\n}\nstart:\nm(ax)\ncall f\njmp nowhere\n",
-            "start:\nmov ax,\n",
-            "z: db \"hi\"\nstart:\nmov al, byte z\nprint reg\n",
-            "start:\nm(ax)\n",
-            "x: dw 7\nstart:\nmov bx, offset x\ncall f\n",
+        // every program that fails (each kind of failure) is followed by a valid one that uses the same names
+        let sources: Vec<String> = vec![
+            "x: db 5\ny: dw [3 , 4]\nstart:\nmov ax, word y\njmp l\nl: hlt\n".to_string(),
+            "macro m(a) -> inc a <-\ndef f {\ninc bx\n}\nstart:\nm(ax)\ncall f\njmp nowhere\n".to_string(),
+            "start:\nmov ax,\n".to_string(),
+            "z: db \"hi\"\nstart:\nmov al, byte z\nprint reg\n".to_string(),
+            "start:\nm(ax)\n".to_string(),
+            "x: dw 7\nstart:\nmov bx, offset x\ncall f\n".to_string(),
+            chain_source(129).0,
+            "macro ch128(r, v) -> mov r, v <-\nmacro ch0(r, v) -> ch128 (r, v) <-\nstart:\nch0(ax, 3)\nch128(bx, 4)\n".to_string(),
+            "macro r(a) -> r(a) <-\nstart:\nr(ax)\n".to_string(),
+            "macro r(a) -> inc a <-\nstart:\nr(ax)\n".to_string(),
+            "macro w(a) -> mov a <-\nmacro v(a) -> w(a) <-\nstart:\nv(ax)\n".to_string(),
+            "macro w(a) -> inc a <-\nmacro v(a) -> w(a) <-\nstart:\nv(ax)\n".to_string(),
+            "def f {\ninc ax\n}\ndef f {\ninc bx\n}\nstart:\ncall f\n".to_string(),
+            "def f {\ninc ax\n}\nstart:\ncall f\n".to_string(),
+            "a: db [65535]\nb: db [5]\nstart:\nhlt\n".to_string(),
+            "a: db 1\nb: db 2\nstart:\nmov al, byte b\n".to_string(),
+            "start:\nmov ax, 1\nstart:\nhlt\n".to_string(),
+            "start:\nmov ax, 1\nhlt\n".to_string(),
         ];
         let fingerprint = |r: bool, c: &PreprocessorContext, o: &PreprocessorOutput| -> String {
             let mut labels: Vec<String> = c.label_map.iter().map(|(k, v)| format!("{}={}:{:?}", k, v.map, v.get_type())).collect();
@@ -1137,7 +1150,7 @@ pub fn gen_c19(asm: &Asm, rng: &mut Rng, sh: &mut Shards, path: &str, thorough: 
         };
         for round in 0..(if thorough { 40 } else { 8 }) {
             for (k, s) in sources.iter().enumerate() {
-                let src = sources[(k + round) % sources.len()];
+                let src: &str = &sources[(k + round) % sources.len()];
                 let _ = s;
                 ctx.clear();
                 out.clear();
